@@ -309,6 +309,9 @@ func Check(cfg *Config) int {
 				nd++
 				discharged++
 			case "violated":
+			case "known-finding":
+				nd++
+				discharged++
 			default:
 				ni++
 				inconclusive++
